@@ -135,17 +135,20 @@ def check_strategy(ctx, clsname: str, adaptive: bool, exp: bool, strategies: dic
     spec_pieces = [(name, sp.rat(lo), sp.rat(hi), sp.rat(val)) for name, lo, hi, val in pieces]
     y_k = sp.rat('Y[k*n]')
     used = set()
+    by_piece: Dict[int, list] = {}
     for sf in st.stores:
         # the store must land in the result array, at flat index k*n + i
         inst = f"{clsname}: store at {sf.loc()} range [{sym.show(sf.lo)}, {sym.show(sf.hi)})"
         ok_root = any(veq(sf.root, y) for y in st.Y_ext_all)
         ctx.check(ok_root, 'C06.5', inst + ' writes the result array (initialised from the piecewise-constant oversampling)',
                   f"store target root: {show(sf.root, 200)}", sf.loc(), st.rfa.qualname, f"root:{sym.show(sf.lo)}")
-        ctx.check(sf.index == st.k * st.n + st.i, 'C06.5', inst + ' index is sample i of interval k',
+        ctx.check(not sf.guard, 'C06.5', inst + ' is made for every interval (no condition skips an interval or a sample of the transition)',
+                  f"only when {[str(g)[:120] for g in sf.guard]}", sf.loc(), st.rfa.qualname, f"uncond:{sym.show(sf.lo)}")
+        ctx.check(sf.index == st.k * st.n + (sf.lo if sf.single else st.i), 'C06.5', inst + ' index is sample i of interval k',
                   f"flat index {sym.show(sf.index)} (expected k*n + i)", sf.loc(), st.rfa.qualname, f"index:{sym.show(sf.lo)}")
         match = None
         for j, (name, lo, hi, val) in enumerate(spec_pieces):
-            if sf.value == val:
+            if sf.value == (sym.subst(val, {_a(st.i): sf.lo}) if sf.single else val):
                 match = j
                 break
         if match is None:
@@ -159,18 +162,37 @@ def check_strategy(ctx, clsname: str, adaptive: bool, exp: bool, strategies: dic
         name, lo, hi, val = spec_pieces[match]
         used.add(match)
         ctx.ok('C06.5', inst + f" value == documented '{name}' shape", '', sf.loc(), st.rfa.qualname, f"value:{name}")
-        # range: equal to the documented one, or extended by a sample at which the shape equals the plateau value
-        ok_lo = sf.lo == lo
-        if not ok_lo and sf.lo == lo - C(1):
-            ok_lo = sym.subst(val, {_a(st.i): lo - C(1)}) == y_k
-        ok_hi = sf.hi == hi
-        if not ok_hi and sf.hi == hi + C(1):
-            ok_hi = sym.subst(val, {_a(st.i): hi}) == y_k
-        ctx.check(ok_lo and ok_hi, 'C06.5', inst + f" covers the documented sample range of '{name}'",
-                  f"code range [{sym.show(sf.lo)}, {sym.show(sf.hi)}) vs documented [{sym.show(lo)}, {sym.show(hi)})",
-                  sf.loc(), st.rfa.qualname, f"range:{name}")
+        by_piece.setdefault(match, []).append(sf)
         ctx.check(sf.k_lo == C(1), 'C06.5', inst + ' interval loop starts at the first real interval',
                   f"k from {sym.show(sf.k_lo)}", sf.loc(), st.rfa.qualname, f"klo:{name}")
+    # range: the stores of one shape together cover the documented sample range (one loop, or a loop plus directly written samples), possibly
+    # extended by a sample at which the shape equals the plateau value
+    for j, sfs in by_piece.items():
+        name, lo, hi, val = spec_pieces[j]
+        chain = [sfs[0]]
+        rest = list(sfs[1:])
+        grew = True
+        while rest and grew:
+            grew = False
+            for r_ in list(rest):
+                if r_.lo == chain[-1].hi:
+                    chain.append(r_)
+                    rest.remove(r_)
+                    grew = True
+                elif r_.hi == chain[0].lo:
+                    chain.insert(0, r_)
+                    rest.remove(r_)
+                    grew = True
+        clo, chi = chain[0].lo, chain[-1].hi
+        ok_lo = clo == lo
+        if not ok_lo and clo == lo - C(1):
+            ok_lo = sym.subst(val, {_a(st.i): lo - C(1)}) == y_k
+        ok_hi = chi == hi
+        if not ok_hi and chi == hi + C(1):
+            ok_hi = sym.subst(val, {_a(st.i): hi}) == y_k
+        ctx.check(ok_lo and ok_hi and not rest, 'C06.5', f"{clsname}: the stores of '{name}' cover its documented sample range",
+                  f"code ranges {[f'[{sym.show(x.lo)}, {sym.show(x.hi)})' for x in sfs]} vs documented [{sym.show(lo)}, {sym.show(hi)})",
+                  sfs[0].loc(), st.rfa.qualname, f"range:{name}")
     for j, (name, lo, hi, val) in enumerate(spec_pieces):
         ctx.check(j in used, 'C06.5', f"{clsname}: documented piece '{name}' is produced by some store",
                   f"no store of {st.rfa.qualname} has this value", st.rfa.loc(), st.rfa.qualname, f"piece:{name}")
@@ -194,6 +216,129 @@ def check_strategy(ctx, clsname: str, adaptive: bool, exp: bool, strategies: dic
                   'C06.3', f"{clsname}.__init__ stores the exp parameter unchanged", show(st.init_fields.get('exp'), 100),
                   st.init.loc(), st.init.qualname, 'exp-init')
     return st
+
+
+LEFT_TIES = [frozenset({('AR', -1), ('AL', 0)}), frozenset({('AL', 0)}), frozenset({('AR', -1)})]
+RIGHT_TIES = [frozenset({('AR', 0), ('AL', 1)}), frozenset({('AR', 0)}), frozenset({('AL', 1)})]
+EXP_TIES = [frozenset({('BL', 0)}), frozenset({('BL', 0), ('AR', -1)}), frozenset({('BR', 0)}), frozenset({('BR', 0), ('AL', 1)})]
+
+
+def check_ties(ctx, clsname: str, exp: bool, rule='C06.8'):
+    """tie cases of the adaptive strategies (a window, or its linear part, of zero samples), one scenario at a time: rfa() is evaluated with the zero
+    tests of the scenario decided true; every store then either has an empty sample range or stores the documented shape (with the zero windows
+    substituted), or re-writes the plateau value the sample already has"""
+    ties = LEFT_TIES + RIGHT_TIES + (EXP_TIES if exp else [])
+    return parallel_map(ctx, [(clsname, exp, rule, tie) for tie in ties], _tie_scenario)
+
+
+def parallel_map(ctx, jobs, fn) -> int:
+    """run independent scenario checks in forked workers (they share the loaded program and the atom table copy-on-write) and merge their
+    obligations in job order; falls back to a sequential run when forking is not available"""
+    global _PAR_CTX
+    import multiprocessing as mp
+    import os as _os
+    total = 0
+    results = None
+    if len(jobs) > 1 and hasattr(_os, 'fork') and not _os.environ.get('TWVERIF_SEQUENTIAL'):
+        _PAR_CTX = (ctx, fn)
+        try:
+            with mp.get_context('fork').Pool(min(len(jobs), _os.cpu_count() or 2, 16)) as pool:
+                results = pool.map(_par_worker, jobs)
+        except (OSError, ValueError):
+            results = None
+    if results is None:
+        results = [_par_run(ctx, fn, j) for j in jobs]
+    for obls, n, err in results:
+        if err:
+            raise AnalysisError(err)
+        ctx.obls.extend(obls)
+        total += n
+    return total
+
+
+_PAR_CTX = None
+
+
+def _par_run(ctx, fn, job):
+    mark = len(ctx.obls)
+    try:
+        n = fn(ctx, *job)
+    except AnalysisError as ex:
+        return [], 0, str(ex)
+    out = ctx.obls[mark:]
+    del ctx.obls[mark:]
+    return out, n, None
+
+
+def _par_worker(job):
+    ctx, fn = _PAR_CTX
+    return _par_run(ctx, fn, job)
+
+
+def _tie_scenario(ctx, clsname: str, exp: bool, rule: str, tie) -> int:
+    n_checked = 0
+    for tie in [tie]:
+        st = strategy(ctx.prog, clsname, tie=tie)
+        if st.issues:
+            raise AnalysisError(f"{rule}: {clsname} not canonicalisable under {sorted(tie)}: {st.issues[:3]}")
+        sp = build_spec(ctx, st, True, exp)
+        zero = {}
+        label = ', '.join(f"{nm}[k{c:+d}]" if c else f"{nm}[k]" for nm, c in sorted(tie)) + ' = 0'
+        for nm, c in tie:
+            if nm in ('AL', 'AR'):
+                r = sp.rat(f"{nm}[k + ({c})]")
+            else:
+                r = sp.rat('bL' if nm == 'BL' else 'bR')
+            ats = list(r.atoms())
+            if len(ats) != 1:
+                raise AnalysisError(f"{rule}: window quantity {nm}[k{c:+d}] is not atomic: {sym.show(r)}")
+            zero[ats[0]] = C(0)
+
+        def z(r: Rat):
+            try:
+                return sym.subst(r, zero)
+            except (ZeroDivisionError, sym.Unknown):
+                return None
+        pieces = EXP_PIECES if exp else LINEAR_PIECES
+        spec_pieces = []
+        for name, lo, hi, val in pieces:
+            try:
+                spec_pieces.append((name, z(sp.rat(lo)), z(sp.rat(hi)), z(sp.rat(val))))
+            except (ZeroDivisionError, sym.Unknown, AnalysisError):
+                spec_pieces.append((name, None, None, None))
+        Y = st.Y
+        for sf in st.stores:
+            lo, hi, val = z(sf.lo), z(sf.hi), z(sf.value)
+            inst = f"{clsname} [{label}]: store at {sf.loc()}"
+            n_checked += 1
+            if lo is None or hi is None:
+                ctx.unknown(rule, inst, 'range not evaluable under the tie', sf.loc(), st.rfa.qualname, f"tie:{label}:{sym.show(sf.lo)}")
+                continue
+            width = hi - lo
+            if width.is_const() and width.const_value() <= 0:
+                ctx.ok(rule, inst + ' has an empty sample range', f"[{sym.show(lo)}, {sym.show(hi)})", sf.loc(), st.rfa.qualname, f"tie:{label}:{sym.show(sf.lo)}")
+                continue
+            ok = False
+            if val is not None:
+                for name, plo, phi, pval in spec_pieces:
+                    if pval is None:
+                        continue
+                    want = sym.subst(pval, {_a(st.i): lo}) if sf.single else pval
+                    if val == want:
+                        ok = True
+                        break
+                if not ok and sf.single:
+                    # the sample keeps the value it has: the average of the interval the written index belongs to
+                    off = lo / st.n
+                    if off.is_const() and off.const_value().denominator == 1:
+                        ok = val == Y.at((st.k + C(int(off.const_value()))) * st.n).r
+            ctx.check(ok, rule, inst + f" over samples [{sym.show(lo)}, {sym.show(hi)}) stores the documented shape for this tie (or the plateau value the sample has)",
+                      f"code value: {sym.show(val)[:500] if val is not None else 'not evaluable (division by a zero-width window)'}", sf.loc(), st.rfa.qualname,
+                      f"tie:{label}:{sym.show(sf.lo)}")
+        if st.unkeyed:
+            ctx.unknown(rule, f"{clsname} [{label}]: zero tests", f"tests on quantities that are not window-table entries: {sorted(set(st.unkeyed))[:3]}", st.rfa.loc(),
+                        st.rfa.qualname, f"tie:{label}:unkeyed")
+    return n_checked
 
 
 def _a(r: Rat) -> int:
@@ -294,7 +439,12 @@ def check_adaptive_windows(ctx):
             ctx.check(got is not None and got == want, 'C06.6', f"{name} window, case {c}",
                       f"code:  {show(v, 400)}\nspec:  {sym.show(want)[:400]}", e.loc(), fi.qualname, f"{side}:{c}")
     ctx.sample({'rule': 'C06.6', 'general_left': sym.show(expected['general'][0])[:200]})
-    # the adaptive factor reaches the windows with the constructor's parameters
+    check_adaptive_forwarding(ctx, 'C06.3')
+
+
+def check_adaptive_forwarding(ctx, rule='C06.3'):
+    """the adaptive split receives the constructor's window size and smoothing, and the extended averages"""
+    fi = ctx.prog.func(ADAPT)
     for clsname in ('LinearAdaptiveRFA', 'ExpAdaptiveRFA'):
         st = strategy(ctx.prog, clsname)
         call = st.adapt_call
@@ -302,19 +452,20 @@ def check_adaptive_windows(ctx):
             raise AnalysisError(f"C06.3: {clsname}.rfa does not call get_adaptive_transition_points")
         b = call.data['bound']
         pa, ps = fi.params()[2], fi.params()[3]
-        ctx.check(isinstance(b.get(pa), Num) and b[pa].r == st.field_syms.get('a'), 'C06.3',
+        ctx.check(isinstance(b.get(pa), Num) and b[pa].r == st.field_syms.get('a'), rule,
                   f"{clsname}: window size a is forwarded to the adaptive split", show(b.get(pa), 100), call.loc(), st.rfa.qualname, 'a-forward')
-        ctx.check(isinstance(b.get(ps), Num) and b[ps].r == st.field_syms.get('adaptive_smooth'), 'C06.3',
+        ctx.check(isinstance(b.get(ps), Num) and b[ps].r == st.field_syms.get('adaptive_smooth'), rule,
                   f"{clsname}: adaptive_smooth is forwarded to the adaptive split", show(b.get(ps), 100), call.loc(), st.rfa.qualname, 's-forward')
         yobj = b.get(fi.params()[1])
         yarr = st.ev.top_state.heap.get(yobj.oid, {}).get('a') if isinstance(yobj, Obj) else None
-        ctx.check(yarr is not None and any(veq(strip_state(yarr), y) for y in st.Y_ext_all), 'C06.3',
+        ctx.check(yarr is not None and any(veq(strip_state(yarr), y) for y in st.Y_ext_all), rule,
                   f"{clsname}: the adaptive split reads the extended averages", show(yarr, 100), call.loc(), st.rfa.qualname, 'y-forward')
         for nm, p in (('a', 'a'), ('adaptive_smooth', 'adaptive_smooth')):
             v = st.init_fields.get(nm)
             if nm == 'adaptive_smooth':
-                ctx.check(isinstance(v, Num) and v.r == st.param_syms.get(p), 'C06.3', f"{clsname}.__init__ stores {p} unchanged",
+                ctx.check(isinstance(v, Num) and v.r == st.param_syms.get(p), rule, f"{clsname}.__init__ stores {p} unchanged",
                           show(v, 100), st.init.loc(), st.init.qualname, f"init:{nm}")
+
 
 
 def run(ctx):  # noqa: F811  (rule entry point)
@@ -325,8 +476,15 @@ def run(ctx):  # noqa: F811  (rule entry point)
                       'right border of k equals left border of k+1')
     ctx.rule('C06.5', 'every in-place store of the four window strategies is sample i of interval k of the result array and its value is canonically '
                       'equal to the documented piece (linear / linear+power blend) for its sample range; every documented piece is produced; '
-                      'tie branches (window == 0) are decided false: all their consuming ranges are empty')
+                      'tie branches (window == 0) are decided false here (general position) and examined one by one in C06.8')
     strategies = {}
+    ctx.rule('C06.8', 'tie cases of the adaptive strategies, one scenario at a time (a left / right window of zero samples on either side of a border, a '
+                      'linear part of zero samples): with the zero tests of the scenario decided true, every store has an empty sample range, or stores the '
+                      'documented shape with the zero windows substituted, or re-writes the plateau value')
+    n_t = check_ties(ctx, 'LinearAdaptiveRFA', False) + check_ties(ctx, 'ExpAdaptiveRFA', True)
+    ctx.floor('C06.8', n_t, 40, 'stores examined under tie scenarios')
+    from . import c05
+    c05.check_window_sizes(ctx, rule='C06.7')
     check_strategy(ctx, 'LinearFixedRFA', False, False, strategies)
     check_strategy(ctx, 'ExpFixedRFA', False, True, strategies)
     check_strategy(ctx, 'LinearAdaptiveRFA', True, False, strategies)
